@@ -517,7 +517,7 @@ retry:
 
             priv->content_length = (priv->content_length * 10) + val;
 
-            if (pos + 1 > priv->recv_buf_fill)
+            if (pos + 1 >= priv->recv_buf_fill)
               goto not_enough_data;
             pos++;
           }
